@@ -5,6 +5,7 @@ package main
 import (
 	"fmt"
 	"go/token"
+	"go/types"
 	"strings"
 
 	"golang.org/x/tools/go/ssa"
@@ -510,10 +511,20 @@ func init() {
 				r.undecided(key, fnName(fn), c.pos(fn.Pos()), "loop over the iterators not found")
 				return
 			}
+			// the current key / value of an iterator, by role rather than by name: a []byte
+			// (resp. uint64) loaded from memory — an element of the parallel slices or a
+			// field of a per-iterator cursor struct — not the low key kept by the enumerator
 			isKey := func(v ssa.Value) bool {
-				return strings.HasSuffix(exprSig(v, 0), ".currKs[phi:rangeindex]") || strings.Contains(exprSig(v, 0), ".currKs[")
+				ld, ok := v.(*ssa.UnOp)
+				if !ok || ld.Op != token.MUL || !isByteSlice(v.Type()) {
+					return false
+				}
+				return !strings.HasSuffix(accessPath(ld.X), ".lowK")
 			}
-			isVal := func(v ssa.Value) bool { return strings.Contains(exprSig(v, 0), ".currVs[") }
+			isVal := func(v ssa.Value) bool {
+				ld, ok := v.(*ssa.UnOp)
+				return ok && ld.Op == token.MUL && v.Type().String() == "uint64"
+			}
 			var skipParam *ssa.Parameter
 			for _, p := range fn.Params {
 				if p.Type().String() == "bool" {
@@ -538,7 +549,7 @@ func init() {
 				}
 				return 0, false, false
 			}
-			be := &boolExec{fn: fn, atoms: atoms, n: 4}
+			be := &boolExec{fn: fn, atoms: atoms, n: 4, inline: true}
 			start := hdr.Succs[0]
 			for asg := uint(0); asg < 16; asg++ {
 				K, V, L, S := asg&1 != 0, asg&2 != 0, asg&4 != 0, asg&8 != 0
@@ -1048,6 +1059,166 @@ func init() {
 								r.ok(key, fnName(fn), c.pos(ia.Pos()), "the sub-slice is indexed with its own loop index")
 							}
 						}
+					}
+				}
+			}
+		},
+	})
+}
+
+func init() {
+	register(&Rule{
+		Name:   "APPEND-RESULT-USED",
+		Floor:  0,
+		ZeroOK: true,
+		Doc:    "an in-package function that grows a slice parameter and returns it (append style: some return value derives from append(param, …)) is never called with that result discarded — the caller's slice header would stay at its old length and the appended elements be lost",
+		Run: func(c *Ctx, scope string, r *Report) {
+			for _, fn := range c.srcFns {
+				if fn.Parent() != nil || fn.Signature.Results().Len() == 0 {
+					continue
+				}
+				// which result indexes derive from append(<param>, …)?
+				appendRes := map[int]bool{}
+				var fromParam func(v ssa.Value, d int) bool
+				fromParam = func(v ssa.Value, d int) bool {
+					if d > 8 {
+						return false
+					}
+					switch x := v.(type) {
+					case *ssa.Parameter:
+						_, isSlice := x.Type().Underlying().(*types.Slice)
+						return isSlice
+					case *ssa.Slice:
+						return fromParam(x.X, d+1)
+					case *ssa.Phi:
+						for _, e := range x.Edges {
+							if e != ssa.Value(x) && fromParam(e, d+1) {
+								return true
+							}
+						}
+					case *ssa.Call:
+						if bi, ok := x.Call.Value.(*ssa.Builtin); ok && bi.Name() == "append" {
+							return fromParam(x.Call.Args[0], d+1)
+						}
+					}
+					return false
+				}
+				var isAppendOfParam func(v ssa.Value, d int) bool
+				isAppendOfParam = func(v ssa.Value, d int) bool {
+					if d > 8 {
+						return false
+					}
+					switch x := v.(type) {
+					case *ssa.Phi:
+						for _, e := range x.Edges {
+							if e != ssa.Value(x) && isAppendOfParam(e, d+1) {
+								return true
+							}
+						}
+					case *ssa.Call:
+						if bi, ok := x.Call.Value.(*ssa.Builtin); ok && bi.Name() == "append" {
+							return fromParam(x.Call.Args[0], d+1)
+						}
+					}
+					return false
+				}
+				// a slice parameter that lives in a cell because a closure of fn appends to it
+				cellGrown := func(v ssa.Value) bool {
+					ld, ok := v.(*ssa.UnOp)
+					if !ok || ld.Op != token.MUL {
+						return false
+					}
+					cell, ok := ld.X.(*ssa.Alloc)
+					if !ok {
+						return false
+					}
+					holdsParam := false
+					for _, st := range c.census().allocStores[cell] {
+						if p, ok := st.val.(*ssa.Parameter); ok {
+							if _, isSlice := p.Type().Underlying().(*types.Slice); isSlice {
+								holdsParam = true
+							}
+						}
+					}
+					if !holdsParam {
+						return false
+					}
+					isCellLoad := func(f *ssa.Function, a ssa.Value) bool {
+						l2, ok := a.(*ssa.UnOp)
+						if !ok || l2.Op != token.MUL {
+							return false
+						}
+						if l2.X == ssa.Value(cell) {
+							return true
+						}
+						if fv, ok := l2.X.(*ssa.FreeVar); ok {
+							for i, x := range f.FreeVars {
+								if x != fv {
+									continue
+								}
+								for _, mc := range c.census().closures[f] {
+									if i < len(mc.Bindings) && mc.Bindings[i] == ssa.Value(cell) {
+										return true
+									}
+								}
+							}
+						}
+						return false
+					}
+					fs := append([]*ssa.Function{fn}, fn.AnonFuncs...)
+					for _, f := range fs {
+						for _, b := range f.Blocks {
+							for _, ins := range b.Instrs {
+								if call, ok := ins.(*ssa.Call); ok {
+									if bi, ok := call.Call.Value.(*ssa.Builtin); ok && bi.Name() == "append" && isCellLoad(f, call.Call.Args[0]) {
+										return true
+									}
+								}
+							}
+						}
+					}
+					return false
+				}
+				for _, b := range fn.Blocks {
+					if ret, ok := b.Instrs[len(b.Instrs)-1].(*ssa.Return); ok {
+						for i, res := range ret.Results {
+							if isAppendOfParam(resolveLoad(res), 0) || cellGrown(res) {
+								appendRes[i] = true
+							}
+						}
+					}
+				}
+				if len(appendRes) == 0 {
+					continue
+				}
+				for _, site := range c.callsTo(fn) {
+					call, ok := site.(*ssa.Call)
+					if !ok {
+						continue // go/defer: result necessarily discarded, not the pattern
+					}
+					key := fnName(site.Parent()) + "/uses-result-of-" + fnName(fn)
+					used := true
+					if fn.Signature.Results().Len() == 1 {
+						used = call.Referrers() != nil && len(*call.Referrers()) > 0
+					} else {
+						for i := range appendRes {
+							got := false
+							if call.Referrers() != nil {
+								for _, ref := range *call.Referrers() {
+									if ex, ok := ref.(*ssa.Extract); ok && ex.Index == i && ex.Referrers() != nil && len(*ex.Referrers()) > 0 {
+										got = true
+									}
+								}
+							}
+							if !got {
+								used = false
+							}
+						}
+					}
+					if used {
+						r.ok(key, fnName(site.Parent()), c.pos(site.Pos()), "the grown slice returned by "+fnName(fn)+" is used")
+					} else {
+						r.bad(key, fnName(site.Parent()), c.pos(site.Pos()), fnName(fn)+" appends to the slice it is given and returns the grown slice, but this call discards the result: the caller's slice keeps its old length and the appended elements are lost")
 					}
 				}
 			}
